@@ -105,7 +105,7 @@ theorem full_prune_exact {o : Opts} {used : List BlobH} {idx : List PB} {packs :
   obtain ⟨hsel, hdom⟩ := packInfo_spec hpi
   obtain ⟨hrem, hign, hlisted, _, _⟩ := decide_spec hpl0
   have nw := decide_full_no_waste (pl := pl0) hc hpl0
-  have acc := packInfo_account hpi
+  have acc := packInfo_account hpi rfl
   have hkeys : ∀ pb ∈ idx, pb.pack ∈ packKeys idx := by
     intro pb hpb
     unfold packKeys
@@ -178,7 +178,7 @@ theorem full_prune_exact {o : Opts} {used : List BlobH} {idx : List PB} {packs :
       rw [hxb] at this
       apply Classical.byContradiction
       intro hnu
-      have h0 := acc.none b hnu
+      have h0 := acc.zero b hnu
       rw [List.countP_eq_zero] at h0
       exact absurd this (h0 (x, m) hm)
     · rw [hkeep] at hb
